@@ -257,6 +257,9 @@ func (s Server) LeafSelectionQuery(ctx context.Context, req *admin.LeafSelection
 			}
 		}
 
+		if config.Values == nil {
+			config.Values = make(map[string]*configapi.PathValue)
+		}
 		for path, value := range newChanges {
 			config.Values[path] = value
 		}
